@@ -219,3 +219,24 @@ Definition vpopbounce_of (file : option bytes) : option bytes :=
     1 = the one in the user directory, 0 = none *)
 Definition conf_of (o : outcome) : N :=
   match userdir o with Some _ => 1%N | None => 0%N end.
+
+(** ** addrparse() on the argument of RCPT TO:<local@domain>
+    for an address addrsyntax() accepts as a full address (result 3) whose domain finddomain() finds in
+    rcpthosts: the address is lower-cased as a whole, the part before the '@' goes to user_exists() with the
+    part behind it as domain; a negative result is returned as error (the caller answers 4xx), 0 is answered
+    with the "no such user" reply (return -1), anything else is accepted (return 0). *)
+Inductive rcpt_reply :=
+| RAccept
+| RNoUser (text : bytes)      (* the strings handed to net_writen, concatenated *)
+| RError (e : Z).
+
+Definition AT : N := 64%N.
+
+Definition addrparse_rcpt (db : cdb) (fs : name -> entry) (vb : option bytes) (local domain : bytes)
+    : rcpt_reply * outcome :=
+  let l := map to_lower local in
+  let d := map to_lower domain in
+  let o := user_exists db fs vb d l in
+  ((if Z.ltb (rc o) 0 then RError (- rc o)
+    else if Z.eqb (rc o) 0 then RNoUser (VP_NOUSER_PRE ++ (l ++ AT :: d) ++ VP_NOUSER_POST)
+    else RAccept), o).
